@@ -14,6 +14,7 @@ import json
 import multiprocessing
 import os
 import signal
+import zlib
 import time
 
 import common
@@ -72,6 +73,21 @@ def plain_result(r):
     return ('ok', r)
 
 
+def perturb(v):
+    """another document of the same shape (what a reused statement saw before)"""
+    if isinstance(v, bool) or v is None:
+        return v
+    if isinstance(v, int):
+        return v + 3
+    if isinstance(v, str):
+        return v + 'x'
+    if isinstance(v, list):
+        return [perturb(x) for x in reversed(v)]
+    if isinstance(v, dict):
+        return {k: perturb(x) for k, x in v.items()}
+    return v
+
+
 def run_real_once(text, doc, timeout):
     eng, root = engine()
     try:
@@ -79,6 +95,15 @@ def run_real_once(text, doc, timeout):
         signal.signal(signal.SIGALRM, _alarm)
         signal.setitimer(signal.ITIMER_REAL, timeout)
         try:
+            if zlib.crc32(text.encode('utf8')) & 1:
+                # a parsed statement is reusable: every second text is first evaluated on ANOTHER document of the same
+                # shape, and what is compared is the result of the later evaluation of the same Statement object
+                try:
+                    st.evaluate(data=perturb(evalgen.to_host(doc)), context=root.create_child_context())
+                except Timeout:
+                    raise
+                except Exception:       # noqa - the other document may not fit the program
+                    pass
             return plain_result(st.evaluate(data=evalgen.to_host(doc), context=root.create_child_context()))
         finally:
             signal.setitimer(signal.ITIMER_REAL, 0)
@@ -254,6 +279,9 @@ PROBES = [
     ('unknown variable not null', "[$nope, $nope = null]", [None, True]),
     ('member access not mapped', "[{a => 1}, {a => 2}].a", [1, 2]),
     ('member access not mapped', "[{a => 1}, {a => 2}].select($.a)", [1, 2]),
+    ('dynamic instead of lexical closure', "[1, 2, 3].select(let(k => $) -> def(f, $k * 10) -> f())", [10, 20, 30]),
+    ('dynamic instead of lexical closure', "[[1, 2], [3]].select(def(n, $.len()) -> $.select($ * n()))", [[2, 4], [3]]),
+    ('wrong $', "[1, 2].select(def(f, $) -> [f(7), f()])", [[7, 1], [7, 2]]),
 ]
 
 
